@@ -38,7 +38,7 @@ def HasTyR (st : StructTable) : Ty → RExp → Prop
   | t, .split _ false e => HasTyR st { t with arrDim := t.arrDim + 1 } e
   | _, .split _ true _ => False
   | _, .merge _ _ _ => False
-  | _, .disabled _ _ => False
+  | t, .disabled d v => HasTyR st ⟨"bool", 0, 0⟩ d ∧ HasTyR st t v
   | t, .fork _ _ e => HasTyR st t e
 def HasTyRList (st : StructTable) : Ty → List RExp → Prop
   | _, [] => True
@@ -286,7 +286,11 @@ theorem evalRT_filterR :
     have e' : filterR st t (.split c m e) = .split c m e := by simp [filterR]
     rw [e']; exact ⟨rfl, h⟩
   | .merge _ _ _, _, h => by simp [HasTyR] at h
-  | .disabled _ _, _, h => by simp [HasTyR] at h
+  | .disabled d v, t, h => by
+    simp only [HasTyR] at h
+    have ih := evalRT_filterR v t h.2
+    simp only [filterR, evalRT, HasTyR, ih.1]
+    exact ⟨trivial, h.1, ih.2⟩
   | .fork c ix e, t, h => by
     have e' : filterR st t (.fork c ix e) = .fork c ix e := by simp [filterR]
     rw [e']; exact ⟨rfl, h⟩
